@@ -244,6 +244,18 @@ func streamScope(o *Out, r *rand.Rand, n int, thorough bool) {
 		{"func f() {\nvar who = \"f\"\nvar log = []\ntry {\nswitch 1 {\ncase 1:\nvar who = \"case\"\nfor n in [1, 2] {\nvar who = \"loop\"\nboom()\n}\n}\n} catch err {\nlog += \"catch sees \" + who\n}\nlog += \"after sees \" + who\nreturn log\n}\nprobe(f())",
 			vals.Encode([]interface{}{"catch sees f", "after sees f"})},
 		{"v = \"top\"\nr = (func() {\nvar v = \"fn\"\nif true {\nvar v = \"blk\"\nboom()\n}\n}() ?? v)\nprobe([r, v])", vals.Encode([]interface{}{"top", "top"})},
+		// the arguments of a call are evaluated in the CALLER's bindings - also for a function literal called where it is
+		// written, whose parameters carry the names the arguments read
+		{"a = 1\nb = 2\nprobe(func(a, b) { return [a, b] }(b, a))", vals.Encode([]interface{}{int64(2), int64(1)})},
+		{"func step(i) {\nreturn func(i, prev) { return [i, prev] }(i + 1, i)\n}\nprobe(step(5))", vals.Encode([]interface{}{int64(6), int64(5)})},
+		{"a = \"arg\"\nprobe(func(first, a, b) { return first + \"/\" + a + \"/\" + b }(\"first\", a, a))", vals.Encode("first/arg/arg")},
+		{"x = 10\nprobe(func(x, y, z) { return [x, y, z] }(x + 1, x + 2, func() { return x }()))", vals.Encode([]interface{}{int64(11), int64(12), int64(10)})},
+		// a module declared in a block / function / module is a binding of that scope, whatever equally named module is visible
+		// outside: the outer module is neither re-opened nor replaced
+		{"module config { verbose = false }\nif true {\nmodule config { scratch = \"block-local\" }\nprobe(config.scratch)\n}\nprobe(config.scratch ?? \"undefined\")\nprobe(config.verbose)",
+			vals.Encode(false)},
+		{"module util { base = 1 }\nmodule c {\nmodule util { extra = 1 }\n}\nprobe([util.extra ?? \"none\", util.base])", vals.Encode([]interface{}{"none", int64(1)})},
+		{"module m { v = 1 }\nfunc setup(verbose) {\nmodule m { seen = verbose }\nreturn m.seen\n}\nprobe([setup(true), m.seen ?? \"none\", m.v])", vals.Encode([]interface{}{true, "none", int64(1)})},
 		// the variable(s) of a for-in loop live in the loop's scope: equally named variables outside keep their values
 		{"v = 7\nk = 8\nfor v in [1, 2] {\n}\nfor k, v in {\"a\": 1} {\n}\nprobe([k, v])", vals.Encode([]interface{}{int64(8), int64(7)})},
 		{"func f() {\nvar i = \"mine\"\nfor i in [1, 2, 3] {\ni = i * 2\n}\nreturn i\n}\nprobe(f())", vals.Encode("mine")},
